@@ -1,6 +1,6 @@
 """C19 - see DESIGN.md 5/C19 (Lifecycle.tla)."""
 from harness import core
-from checks import suite_lifecycle, suite_drolifecycle, suite_userdata, suite_incremental
+from checks import suite_lifecycle, suite_drolifecycle, suite_userdata, suite_incremental, suite_interleave
 
 
 def main(tier):
@@ -17,6 +17,9 @@ def main(tier):
     # user arrays of every kind in every role; the same models formulated in fresh interpreters with different hash seeds
     suite_userdata.run(rep, tier, props=('C19',))
     suite_incremental.run(rep, tier, props=('C19',))
+    if tier == 'thorough':
+        # two models of any classes under every interleaving (Interleave.tla); in the quick tier this suite runs under C17
+        suite_interleave.run(rep, tier, props=('C19',))
     return rep.finish()
 
 
